@@ -14,6 +14,40 @@ CHAINS = {"C2": [["url", "method"], ["useragent", "remoteaddr", "custom"]],
           "C3b": [["url"], ["url", "method", "useragent", "custom"], []]}
 
 
+def iso_part(sc, tier, seed, nfree=None):
+    """Isolation of per-request loggers (hlog.NewHandler + field handlers): model schedules + free walks on real handler
+    chains, validated against HlogTrace. Used by C18 and - requests being sibling loggers derived from one base logger
+    with UpdateContext - by C05. Returns (recordings, bads, stats)."""
+    thorough = tier == "thorough"
+    rng = random.Random(seed)
+    mdir = sc.sub("tlc-hlog-iso")
+    copy_specs(FAMILY, mdir)
+    ov = make_overlay(sc, "hlogiso", [], ["vsched"], [])
+    player = go_build("./players/hlog", sc.path("hlogplayer-iso"), overlay=ov)
+    stats = {"states": 0, "transitions": 0}
+    scripts = []
+    for name, chains in CHAINS.items():
+        consts = "CONSTANTS R = %d\n Chains <- %s\n Shared = FALSE\n" % (len(chains), name)
+        r = tlc(mdir, "MCHlog", consts + "SPECIFICATION Spec\nVIEW View\nCHECK_DEADLOCK FALSE\nINVARIANT Isolated\n", workers=4, timeout=600, cfg_name="hl_%s.cfg" % name)
+        if not r.completed:
+            raise Inconclusive("Hlog model: %s" % r.out[-1200:])
+        stats["states"] += r.distinct
+        stats["transitions"] += r.generated
+        s = tlc(mdir, "MCHlog", consts + "SPECIFICATION Spec\nCHECK_DEADLOCK FALSE\nINVARIANT EmitDone\n", workers=1, simulate=600 if thorough else 150, depth=100, seed=seed,
+                timeout=600, cfg_name="hls_%s.cfg" % name)
+        for i, x in enumerate(sorted({x[2] for x in s.prints("SCHED")})):
+            scripts.append({"kind": "iso", "id": "sim-%s-%d" % (name, i), "chains": chains, "steps": json.loads(x), "bigbase": i % 2 == 1})
+    for i in range(nfree if nfree is not None else (1500 if thorough else 300)):
+        R = rng.randint(2, 5)
+        chains = [[rng.choice(KINDS) for _ in range(rng.randint(0, 5))] for _ in range(R)]
+        scripts.append({"kind": "iso", "id": "free-%d" % i, "chains": chains, "steps": [], "free": True, "seed": rng.randrange(1 << 30), "bigbase": i % 3 == 0})
+    recs = run_player(player, sc, "hlogiso", [json.dumps(s) for s in scripts], shards=8)
+    bads = []
+    for ri, k, e, sig in validate_sharded(sc.dir, "HlogTrace", "hist.ndjson", [rr for _, rr in recs], 8, FAMILY):
+        bads.append((json.loads(recs[ri][0]), recs[ri][1], k, e))
+    return recs, bads, stats
+
+
 def check(pid, tier, seed, replay=None):
     t0 = time.time()
     v = Verdict(pid)
